@@ -298,6 +298,38 @@ def _mk_reassembly(ntasks):
     return body
 
 
+def ob_results_are_used(env):
+    """tasks run in other processes on pickled copies: a caller can only see what a task RETURNS.  Every call of a parallel map in the grid code must
+    therefore use the returned list (structural, on the AST of the current source): no call whose value is discarded, and the contour-valued ones are
+    assigned back to self.contours"""
+    import ast
+    import inspect
+    import hypnotoad.core.mesh as meshm
+    import hypnotoad.core.equilibrium as eqm_
+    calls, discarded, assigned_to = [], [], []
+    for mod in (meshm, eqm_):
+        tree = ast.parse(inspect.getsource(mod))
+        parents = {}
+        for node in ast.walk(tree):
+            for ch in ast.iter_child_nodes(node):
+                parents[ch] = node
+        for node in ast.walk(tree):
+            if isinstance(node, ast.Call) and isinstance(node.func, ast.Attribute) and node.func.attr == "parallel_map":
+                calls.append((mod.__name__, node.lineno))
+                par = parents.get(node)
+                if isinstance(par, ast.Expr):
+                    discarded.append((mod.__name__, node.lineno, ast.unparse(node.args[0]) if node.args else "?"))
+                elif isinstance(par, ast.Assign):
+                    assigned_to.append((ast.unparse(par.targets[0]), ast.unparse(node.args[0]) if node.args else "?"))
+    env.witness("call_sites_found")
+    env.claim("parallel_map_call_sites_exist", len(calls) >= 5)
+    env.claim("no_parallel_map_result_is_discarded", discarded == [])
+    contour_tasks = ("PsiContour.refine", "_refine_extend", "regrid_contours", "_calc_contour_distance")
+    for target, task in assigned_to:
+        if task in contour_tasks:
+            env.claim("contour_valued_map_assigned_back_to_self.contours:" + task, target == "self.contours")
+
+
 def real_replay(nworkers, ntasks):
     """replay against real multiprocessing: a raising module-level task; a hang (timeout) reproduces 'blocks forever'"""
     def replay(claim_name, values):
@@ -366,6 +398,11 @@ OBLIGATIONS.append(Ob("two_calls_w2_t2", _mk(2, 2, ncalls=2), tier="thorough", f
                       desc="two consecutive map calls, the first with a failing task at a symbolic position: the second call returns its own serial results",
                       encodes=ENC, stubs=["multiprocessing -> FIFO/baton model"],
                       bounds="2 workers, 2 tasks, 2 calls, failing index in -1..1 (first call only)", max_paths=4000000, wall_s=1500))
+OBLIGATIONS.append(Ob("parallel_map_results_are_used", ob_results_are_used, tier="quick", family="callers",
+                      desc="every parallel_map call in core/mesh.py and core/equilibrium.py uses the returned list; contour-valued maps are assigned back to self.contours "
+                           "(a task's in-place changes are lost in a worker process)", encodes=["hypnotoad.core.mesh:MeshRegion.__init__", "hypnotoad.core.mesh:MeshRegion.distributePointsNonorthogonal",
+                                                                                                "hypnotoad.core.mesh:MeshRegion.addPointAtWallToContours", "hypnotoad.core.mesh:MeshRegion.calcDistances"],
+                      bounds="structural (AST of the current source)"))
 for _nt in (2, 3, 4, 5):
     OBLIGATIONS.append(Ob("reassembly_any_arrival_order_t%d" % _nt, _mk_reassembly(_nt), tier="quick" if _nt <= 4 else "thorough",
                           family="reassembly", desc="__call__ stores every result at its own task index for every arrival permutation (symbolic, Distinct)",
